@@ -317,7 +317,9 @@ def write_baseline():
     base["_rw"] = rw
     base["_unit_of"] = dict(sorted(unit_of.items()))
     base["_thorough_only"] = sorted(tonly)
-    json.dump(base, open(BASELINE, "w"), indent=1, sort_keys=True)
+    tmp = BASELINE + ".tmp"
+    json.dump(base, open(tmp, "w"), indent=1, sort_keys=True)
+    os.replace(tmp, BASELINE)             # atomic: concurrent checks never see a half-written baseline
     shutil.rmtree(work, ignore_errors=True)
 
 
